@@ -196,6 +196,15 @@ class Engine:
                 fld = names[i] if names and i < len(names) else str(i)
                 for (res, label, src) in self.read_op(fid, o):
                     ch |= self.add(fid, lhs["l"], lp + pre + (fld,) + res, label, ("agg", src, line))
+            # a closure / coroutine created with tainted captures will run (possibly polled by external code, e.g. the
+            # future a service closure returns to hyper): the sinks its body reaches under its captures fire here
+            if rv["ak"] in ("closure", "coroutine") and rv.get("def") and self.ws(rv["def"]):
+                binding = defaultdict(list)
+                for i, o in enumerate(rv["ops"]):
+                    for (res, label, src) in self.read_op(fid, o):
+                        binding[("U", i)].append((label, src))
+                if binding:
+                    self._instantiate_sinks(fid, rv["def"], binding, line)
         elif k == "un":
             # PtrMetadata (slice length), Neg, Not: derived from the operand
             for (res, label, src) in self.read_op(fid, rv["a"]):
@@ -244,6 +253,18 @@ class Engine:
             self.why.setdefault(("<channel>", 0, (ty,), label), ("sent through channel<%s>" % ty.rsplit("::", 1)[-1], src, line))
             for f2 in self.F.fns:
                 self._enqueue(f2)
+
+    def _instantiate_sinks(self, fid, callee, binding, line):
+        for (sym, skey), desc in list(self.cond_sinks[callee].items()):
+            for (L, src) in binding.get(sym, ()):
+                if is_sym(L):
+                    if (L, skey) not in self.cond_sinks[fid]:
+                        self.cond_sinks[fid][(L, skey)] = dict(desc, via=[fid.replace("azure_proxy_agent::", "")] + desc.get("via", []))
+                        self._summary_changed(fid)
+                elif desc["kind"].startswith("channel:"):
+                    self._channel_put(desc["sink"], L, src, line)
+                else:
+                    self._finding(desc, L, src, via=fid)
 
     def _bind_args(self, argt, first_param=1):
         binding = defaultdict(list)
